@@ -129,7 +129,7 @@ def _r_del(ck, world, table, rules, infos) -> None:
             ck.ok('R-DEL', fn, f'A^-1 A / A A^-1 deleted under {ident}', instance=label if (lk or rk) else 'lazy inverse either side')
         else:
             ck.incomplete('R-DEL', fn, f'deletion pattern ({label}) matches no row of the deletion table', instance=label)
-    ck.floor('R-DEL', len(seen_returns), 6, 'return [] sites in rule apply methods')
+    ck.floor('R-DEL', len({(r.qual, id(pth.node)) for r, _fs, pth, _e, _f in sites}), 6, '(rule, return []) deletion sites')
 
 
 # ------------------------------------------------------------------------------ R-QU
@@ -444,16 +444,25 @@ def _r_drv(ck, world, table, strict_order: bool = False) -> None:
               'the input structure is captured from operands[-1] before any operand is removed',
               'the input structure of the chain is not captured from the last operand before the list is rewritten', instance='in_structure captured first')
     cap_name = body[cap_idx].targets[0].id if cap_idx is not None and isinstance(body[cap_idx].targets[0], ast.Name) else None
-    # splice
-    splices = [n for n in ast.walk(fn) if isinstance(n, ast.Assign) and isinstance(n.targets[0], ast.Subscript) and isinstance(n.targets[0].value, ast.Name) and n.targets[0].value.id == ops]
-    reads = [n for n in ast.walk(fn) if isinstance(n, ast.Assign) and isinstance(n.value, ast.Tuple) and len(n.value.elts) == 2 and all(isinstance(e, ast.Subscript) for e in n.value.elts)]
+    # splice: the rewrite replaces exactly the pair that was matched.  The pair is whatever is read from the list by
+    # single-element subscripts inside the scan loop (a tuple assignment, or the arguments of a helper call)
+    loops = [n for n in fn.body if isinstance(n, ast.While)]
+    scope = loops[0] if len(loops) == 1 else fn
+    splices = [n for n in ast.walk(scope) if isinstance(n, ast.Assign) and isinstance(n.targets[0], ast.Subscript) and isinstance(n.targets[0].value, ast.Name) and n.targets[0].value.id == ops
+               and isinstance(n.targets[0].slice, ast.Slice)]
+    loads = {term(n.slice) for n in ast.walk(scope) if isinstance(n, ast.Subscript) and isinstance(n.ctx, ast.Load) and isinstance(n.value, ast.Name) and n.value.id == ops
+             and not isinstance(n.slice, ast.Slice)}
     ok = False
     why = 'no splice / pair read found'
-    if len(splices) == 1 and len(reads) == 1:
+    if len(splices) == 1 and len(loads) == 2:
         sl = term(splices[0].targets[0].slice)
-        r0, r1 = (term(e.slice) for e in reads[0].value.elts)
-        ok = sl[0] == 'slice' and sl[1] == r0 and r1 == ('binop', '+', r0, ('const', '1')) and sl[2] == ('binop', '+', r0, ('const', '2')) and sl[3] == ('none',)
-        why = f'pair read at [{show(r0)}], [{show(r1)}]; splice assigns [{show(sl)}]'
+        r0 = next((a for a in loads if ('binop', '+', a, ('const', '1')) in loads), None)
+        if r0 is not None:
+            r1 = ('binop', '+', r0, ('const', '1'))
+            ok = sl[0] == 'slice' and sl[1] == r0 and sl[2] == ('binop', '+', r0, ('const', '2')) and sl[3] == ('none',)
+            why = f'pair read at [{show(r0)}], [{show(r1)}]; splice assigns [{show(sl)}]'
+        else:
+            why = f'the elements read from the list are {sorted(show(a) for a in loads)}: not an adjacent pair'
     ck.expect('R-DRV', ok, fn, 'the rewrite replaces operands[i:i+2], exactly the pair read at i and i+1',
               f'the splice does not replace exactly the pair that was matched: {why}', instance='splice')
     # empty -> identity on captured structure
@@ -466,17 +475,37 @@ def _r_drv(ck, world, table, strict_order: bool = False) -> None:
             ck.expect('R-DRV', rt[1][2] == (('var', cap_name),), fn, 'everything cancelled -> [IdentityOperator(<captured input structure>)]',
                       f'the empty result is {show(rt)}: not the identity on the captured input structure', instance='all cancelled')
     ck.expect('R-DRV', found, fn, 'an empty operand list is replaced by an identity', 'an empty operand list can be returned by the driver', instance='all cancelled exists', nontrivial=False)
-    # the handler
-    tries = [n for n in ast.walk(fn) if isinstance(n, ast.Try)]
-    ok_h = False
-    for t in tries:
-        for h in t.handlers:
-            hq = world.qualify(module_of(fn), h.type) if h.type is not None else None
-            if hq == f'{RULES}.NoReduction' and len(h.body) == 1 and isinstance(h.body[0], ast.Continue):
-                ok_h = True
-            else:
-                ck.bad('R-RAISE', h, f'the driver catches {ast.unparse(h.type) if h.type else "everything"}: only NoReduction may be swallowed (and must move on to the next rule)', instance='handler')
-    ck.expect('R-RAISE', ok_h, fn, 'the driver catches exactly NoReduction and continues with the next rule', 'the driver does not catch NoReduction around check/apply', instance='handler NoReduction')
+    # the handler: every call of a registered rule's check/apply made by the driver (directly, or in a helper method of
+    # the driver class whose call sites are themselves covered) sits inside a try that catches NoReduction
+    def covered(call: ast.AST, inside: ast.FunctionDef, depth: int = 0) -> bool:
+        cur = getattr(call, '_parent', None)
+        child = call
+        while cur is not None and cur is not inside:
+            if isinstance(cur, ast.Try) and any(child is b or any(child is x for x in ast.walk(b)) for b in cur.body):
+                for h in cur.handlers:
+                    hq = world.qualify(module_of(inside), h.type) if h.type is not None else None
+                    if h.type is None or hq in (f'{RULES}.NoReduction', 'Exception', 'BaseException'):
+                        return True
+            child, cur = cur, getattr(cur, '_parent', None)
+        if depth >= 2:
+            return False
+        # not covered locally: every call site of this helper inside the driver class must be
+        sites = [n for f2 in alg.own.values() if isinstance(f2, ast.FunctionDef) for n in ast.walk(f2)
+                 if isinstance(n, ast.Call) and isinstance(n.func, ast.Attribute) and n.func.attr == inside.name and f2 is not inside]
+        return bool(sites) and all(covered(n, enclosing(n, (ast.FunctionDef,)), depth + 1) for n in sites)
+
+    from ..loader import enclosing
+
+    rule_calls = []
+    for f2 in alg.own.values():
+        if isinstance(f2, ast.FunctionDef):
+            for n in ast.walk(f2):
+                if isinstance(n, ast.Call) and isinstance(n.func, ast.Attribute) and n.func.attr in ('check', 'apply') and len(n.args) == 2 and isinstance(n.func.value, ast.Name):
+                    rule_calls.append((n, f2))
+    ck.floor('R-RAISE', len(rule_calls), 2, 'check/apply calls of registered rules in the driver')
+    ok_h = bool(rule_calls) and all(covered(n, f2) for n, f2 in rule_calls)
+    ck.expect('R-RAISE', ok_h, fn, 'every check/apply call of a registered rule is made under a handler for NoReduction',
+              'the driver calls check/apply of a registered rule outside any handler for NoReduction: a rule that declines makes reduce() raise', instance='handler NoReduction')
 
 
 # ------------------------------------------------------------------------------ R-NARY
@@ -665,7 +694,7 @@ def _r_pure(ck, world, table, rules) -> None:
     base_check = table.by_name('AbstractBinaryRule').own.get('check')
     if isinstance(base_check, ast.FunctionDef):
         fns.append(base_check)
-    ck.floor('R-PURE', len(fns), 20, 'rule / reduce functions scanned for in-place updates')
+    ck.floor('R-PURE', len(fns), 12, 'rule / reduce functions scanned for in-place updates')
     nbad = 0
     for f in fns:
         for st, name, src in in_place_alias_updates(f):
